@@ -28,12 +28,18 @@ CORR_HEADER = ("From Coq Require Import String ZArith QArith List Bool.\n"
                "From ACN Require Import Base.Num Model.Feasible Gen.Sites Model.Sites.\nImport ListNotations.\n"
                "Open Scope Q_scope.\n")
 CHECK_FN = "check_c16"
-RULE = ("all 36 dumped configurations (3 sites x basic/real EVSEs x 3 capacity settings at 208 V, plus voltage "
-        "arguments 200/120/240) are built first and then queried round-robin, instances of one site back to back: non-negative "
-        "schedules within the EVSE limits (random, one phase group only, one transformer only, balanced), 1-2 periods, "
-        "scaled so that the most loaded constraint sits at limit*(1+-k*1e-7), far inside or far outside; the real "
-        "network's is_feasible (phase-aware and linear) and sum V*I per transformer are compared with the model on the "
-        "dump; distinct = (configuration, schedule); decisions that change under a +-1e-9 slack are skipped")
+RULE = ("all 42 dumped instances (3 sites x basic/real EVSEs x 3 capacity settings at 208 V; voltage arguments 200/120/240; "
+        "the alias CaltechACN; degenerate capacities 0 kW and 1e9 kW) are built first, each with an Interface, a JSON-reloaded "
+        "twin and an Interface on the twin, then queried with no construction in between: corpus witnesses, a prelude per site "
+        "(larger/smaller transformer back to back with a balanced schedule just inside the larger one's limits; long horizons "
+        "T=128..257 with one over-limit column at 127/255/last), then round-robin rounds (one schedule width per round incl. 0 "
+        "periods, instances of one site back to back): non-negative schedules within the EVSE limits (all / one phase group / one "
+        "transformer / sparse / balanced / integer-valued as int arrays), most loaded constraint scaled to limit*(1+-k*1e-7), "
+        "inside or outside; compared with the model on the dump: network.is_feasible (phase-aware, linear), Interface.is_feasible, "
+        "utils.infrastructure_constraints_feasible on the N x T matrix, the reloaded twin directly and through its Interface, sum "
+        "V*I per transformer; the network's limits/matrix must be unchanged by the queries; the dump of a second process "
+        "(other PYTHONHASHSEED) must be identical; distinct = (instance, schedule); decisions that change under a +-1e-9 slack "
+        "are skipped")
 ASSUMPTIONS = ["theorems are over R with exact arithmetic; sqrt3*120 V is used for the nominal 208 V line-to-line voltage (208/207.85 = 1.0007 is the nameplate rounding)",
                "which stations hang behind which transformer / which capacity parameter rates which transformer is ground truth written in tools/dump_sites.py from the site documentation; check_site verifies that the dumped constraint rows have exactly that structure",
                "the dump covers three capacity settings per site; all capacities are covered by the symbolic limit formulas (C16_all_caps) and by the fact that the wiring does not depend on the capacity (check_family)"]
@@ -302,9 +308,11 @@ def gen_cases(rng, n, tier):
     except Exception as e:  # noqa
         cases.append(crash_case("second process", False, 0, e))
     # report order only: a case with a misjudged schedule goes before purely structural findings
-    for k, c in enumerate(cases):
-        if "crash" not in c["input"] and not c["input"].get("crash") and monitor_(c):
-            cases.insert(0, cases.pop(k))
+    ok = lambda c: "crash" not in c["input"] and not c["input"].get("crash") and not c["impl"].get("raised")
+    for pick in (lambda c: ok(c) and monitor_ratings(c), lambda c: ok(c) and monitor_(c)):
+        hit = next((k for k, c in enumerate(cases) if pick(c)), None)
+        if hit is not None:
+            cases.insert(0, cases.pop(hit))
             break
     return cases
 
@@ -394,7 +402,17 @@ def monitor_(case):
     if bad:
         return "EVSE %s has phase angle %r, not one of 30/-90/150" % (bad[0], phases[ids.index(bad[0])])
     if impl["uncovered"]:
-        return "EVSE %s is not covered by any transformer (secondary) constraint" % impl["uncovered"][0]
+        # prefer a concrete over-rating schedule; the structural statement is the fallback
+        r = monitor_ratings(case)
+        return r or "EVSE %s is not covered by any transformer (secondary) constraint" % impl["uncovered"][0]
+    return monitor_ratings(case)
+
+
+def monitor_ratings(case):
+    inp, impl = case["input"], case["impl"]
+    site, idx, X, T = inp["site"], inp["idx"], inp["X"], inp["T"]
+    kw = kw_of(site, idx)
+    ids, phases = impl["ids"], impl["phases"]
     if case.get("ambiguous"):
         return None
     if any(v < 0 for r in X for v in r):
@@ -421,7 +439,7 @@ def monitor_(case):
         x = [X[i][t] for i in range(len(ids))]
         for cap, mem in trs:
             p = SQ3 * 120 * sum(x[i] for i in mem)
-            if p > 1000 * cap * slack:
+            if p > 1000 * cap * slack + 0.05:       # + 0.05 W: the absolute tolerance 1e-5 A at 360 V on a 0 kW rating
                 return "schedule reported %s draws %.1f W through a %.1f kW transformer (period %d)" % (how, p, cap, t)
         for rating, mem in pods:
             s = sum(x[i] for i in mem)
@@ -578,8 +596,9 @@ def search_(rng, budget_s, broken):
     prev = None
     for site, basic, idx, kw in cfgs:
         net = get_net(site, basic, idx)
-        for rate in (32.0, 24.0, 16.0, 8.0):
-            X = [[min(rate, float(m))] for m in net.max_pilot_signals]
+        n_st = len(net.station_ids)
+        singles = [[[32.0 if i == k else 0.0] for i in range(n_st)] for k in (0, n_st // 2, n_st - 1)]
+        for X in singles + [[[min(rate, float(m))] for m in net.max_pilot_signals] for rate in (32.0, 24.0, 16.0, 8.0)]:
             impl = observe(site, basic, idx, X, 1)
             c = dict(input=dict(site=site, basic=basic, idx=idx, X=X, T=1, before=prev), impl=impl)
             prev = [site, basic, idx]
